@@ -24,16 +24,17 @@ sys.path.insert(0, HERE)
 
 from pyvc.props import COMMON_ASSUMPTIONS, PROPS  # noqa: E402
 
-BASELINE = os.path.join(HERE, 'baseline', 'obligations.json')
+BASELINE_DIR = os.path.join(HERE, 'baseline')
 KNOWN = os.path.join(HERE, 'known_findings.jsonl')
 
 
 def _worker(args):
     fkey, prop, repo, tier = args
+    interrupts = PROPS[prop].get('interrupts', {})
     from pyvc.run import verify_functions
     try:
         scope = {} if tier == 'quick' else {'Task': 4, 'Inst': 4, 'Type': 3, 'Fut': 4}
-        r = verify_functions([fkey], prop=prop, repo=repo, scope=scope,
+        r = verify_functions([fkey], prop=prop, repo=repo, scope=scope, interrupts=interrupts,
                              timeout_ms=30000 if tier == 'quick' else 300000)
         return fkey, r, None
     except Exception:
@@ -129,8 +130,8 @@ def main(argv=None):
 
     # ------------------------------------------------------------ decide
     known, fixed = load_known()
-    baseline = json.load(open(BASELINE)) if os.path.exists(BASELINE) else {}
-    base_names = set(baseline.get(prop, []))
+    bfile = os.path.join(BASELINE_DIR, f'{prop}.json')
+    base_names = set(json.load(open(bfile))) if os.path.exists(bfile) else set()
     refuted = [o for o in obligations.values() if o['status'] == 'refuted']
     open_ = [o for o in obligations.values() if o['status'] == 'open']
     discharged = [o for o in obligations.values() if o['status'] == 'discharged']
@@ -175,9 +176,8 @@ def main(argv=None):
     level = 'proof' if proved_all and not known_hits else 'other'
     wall = time.time() - t0
     if a.update_baseline and proved_all:
-        baseline[prop] = sorted(o['name'] for o in discharged)
-        os.makedirs(os.path.dirname(BASELINE), exist_ok=True)
-        json.dump(baseline, open(BASELINE, 'w'), indent=1, sort_keys=True)
+        os.makedirs(BASELINE_DIR, exist_ok=True)
+        json.dump(sorted(o['name'] for o in discharged), open(bfile, 'w'), indent=1)
     if not a.no_evidence and a.repo == '/repo':
         write_evidence(prop, a.tier, seed, level, P, functions, obligations, unsupported, bounded, known_hits, violations,
                        trusted_uses, solver_time, queries, wall, lemmas, houdini, missing)
